@@ -48,6 +48,9 @@ pub(crate) async fn cmd_file_untrack(
     args: &FileUntrackArgs,
 ) -> Result<(), CommandError> {
     let mut workspace_command = command.workspace_helper(ui).await?;
+    if let Some(wc_commit_id) = workspace_command.get_wc_commit_id() {
+        workspace_command.check_rewritable([wc_commit_id]).await?;
+    }
     let fileset_expression = workspace_command.parse_file_patterns(ui, &args.paths)?;
     let matcher = fileset_expression.to_matcher();
     let auto_tracking_matcher = workspace_command.auto_tracking_matcher(ui)?;
